@@ -296,8 +296,10 @@ class ActiveMonitor : public Monitor {
       }
       case SEND_ACK:   // ebusd should have written its ACK/NAK instead of reading on
       case SEND_SYN:
-        // handled in onQuiescent (reading instead of writing); a symbol arriving here ends the exchange
-        exchangeFailed(!syn);
+        // a further symbol followed on the bus before ebusd could transmit (it was already buffered): what
+        // ebusd does with the exchange now is not fixed by the statement until the next SYN
+        exchangeFailed(false);
+        if (!syn) ph = DISTURBED;
         break;
       case ACK_ECHO:
         echoPending = false;
@@ -419,9 +421,12 @@ class ActiveMonitor : public Monitor {
 // C15: answer mode responds exactly to the telegrams it was configured for.
 class AnswerMonitor : public Monitor {
  public:
-  AnswerMonitor(VSink* s, const Scenario& scn) : sink(s), sc(scn) {}
+  AnswerMonitor(VSink* s, const Scenario& scn, const std::string& pfx = "C15/", bool entitlementOnlyMode = false)
+      : sink(s), sc(scn), prefix(pfx), entitlementOnly(entitlementOnlyMode) {}
   VSink* sink;
   const Scenario& sc;
+  std::string prefix;
+  bool entitlementOnly;   // C03 (c): only judge that ebusd writes nothing it is not entitled to
   enum Ph { WAIT_SYN, IDLE, M, EXPECT_ACK, ACK_ECHO, RESP_SEND, RESP_ECHO, RESP_ACK, PASSIVE };
   Ph ph = WAIT_SYN;
   Bytes part;
@@ -437,7 +442,11 @@ class AnswerMonitor : public Monitor {
   Bytes reportMaster;
   bool failed = false;
 
-  void fail(const std::string& sig, const std::string& detail) { if (!failed) sink->add("C15/" + sig, detail); failed = true; }
+  void fail(const std::string& sig, const std::string& detail) {
+    if (entitlementOnly && sig.compare(0, 16, "unexpected-write") != 0 && sig.compare(0, 17, "wrong-acknowledge") != 0 && sig.compare(0, 21, "wrong-response-symbol") != 0) return;
+    if (!failed && sink) sink->add(prefix + sig, detail);
+    failed = true;
+  }
   static std::string hx(uint8_t v) { char b[4]; snprintf(b, sizeof(b), "%02x", v); return b; }
   const char* phName() const { static const char* n[] = {"wait-syn", "idle", "receiving", "expect-ack", "ack-echo", "response-send", "response-echo", "response-ack", "passive"}; return n[ph]; }
   void resetPart() { part.clear(); crc = 0; esc = false; crcPos = false; good = false; }
@@ -550,7 +559,8 @@ class AnswerMonitor : public Monitor {
     if (crcPos) {
       good = (u == crc);
       uint8_t zz = part[1];
-      if (zz == ref::BROADCAST || zz == part[0]) { ph = PASSIVE; return; }
+      if (zz == ref::BROADCAST) { ph = PASSIVE; return; }
+      if (zz == part[0] && good) { ph = PASSIVE; return; }  // self-addressed telegram: invalid (with a wrong CRC the source byte itself may be the corrupted one: NAK rules below apply)
       if (part[4] > 16) { ph = WAIT_SYN; dontCare = true; return; }
       cands = lookup(part);
       if (good) {
